@@ -27,6 +27,7 @@ HDOCS = [
     lambda a, b, t: '{\\a{' + a + '}}$' + b + '$' + t,
     lambda a, b, t: '\\c{\\a{' + a + '}' + t + '\\a{' + b + '}}x',
     lambda a, b, t: '\\begin{e}[\\a{' + a + '}]\\a{' + b + '}' + t + '\\end{e}',
+    lambda a, b, t: '\\begin{e}' + a + '\\end{e}' + t + '\\a{' + b + '}\\b{y}',
 ]
 
 
@@ -156,7 +157,7 @@ def apply(soup, root, op):
     """returns 'skip' when the op instance does not exist in the current document, else None"""
     name = op[0]
     nodes = m_nodes(root, [])
-    if name in ('delete', 'replace', 'remove', 'rename', 'string', 'args'):
+    if name in ('delete', 'replace', 'remove', 'rename', 'string', 'args', 'share'):
         k = op[1]
         if k >= len(nodes):
             return 'skip'
@@ -192,11 +193,36 @@ def apply(soup, root, op):
             node.name = new
             m['name'] = new
         elif name == 'string':
-            if m['t'] != 'cmd' or len(m['args']) != 1:
+            empty = len(op) > 2 and op[2] == 'empty'
+            z = '' if empty else T(1)
+            if m['t'] == 'cmd' and len(m['args']) == 1:
+                node.string = z
+                m['args'][0]['contents'] = [{'t': 'text', 's': z, 'expr': None, 'parent': m}]
+            elif m['t'] == 'env' and not m['args'] and len(m['contents']) == 1 and m['contents'][0]['t'] == 'text' \
+                    and not (len(m['contents'][0]['s']) > 0 and SX.decide(SX.And(*[SX.ch_ws(ch) for ch in m['contents'][0]['s']]))):
+                node.string = z
+                m['contents'] = [{'t': 'text', 's': z, 'expr': None, 'parent': m}]
+                if empty or not SX.decide(SX.And(*[SX.ch_ws(ch) for ch in z])):
+                    got = node.string        # (a whitespace-only string is hidden by the contents view: no read-back)
+                    SX.check(SX.raw(str(got)) == z, 'C15:string:readback', lambda: {'document': ser(root)})
+            else:
                 return 'skip'
+        elif name == 'share':
+            # the same unparsed string appended to two commands, then one of the two new groups edited in place
+            others = [x for x in nodes if x is not m and x['t'] == 'cmd']
+            if m['t'] != 'cmd' or not others:
+                return 'skip'
+            o = others[0]
+            onode = real_node(soup, o)
+            if onode is None:
+                return 'skip'
+            for mm, nn in ((m, node), (o, onode)):
+                nn.args.append('{n}')
+                mm['args'].append({'t': 'group', 'kind': '{}', 'name': 'BraceGroup', 'args': [], 'isarg': True, 'parent': mm, 'expr': None,
+                                   'contents': [{'t': 'text', 's': 'n', 'expr': None, 'parent': None}]})
             z = T(1)
-            node.string = z
-            m['args'][0]['contents'] = [{'t': 'text', 's': z, 'expr': None, 'parent': m}]
+            node.args[len(node.args) - 1].string = z
+            m['args'][-1]['contents'] = [{'t': 'text', 's': z, 'expr': None, 'parent': None}]
         elif name == 'args':
             if m['t'] not in ('cmd', 'env'):
                 return 'skip'
